@@ -301,6 +301,7 @@ type FuncContract struct {
 	Trusted  bool   // contract is assumed, body is not verified
 	PerReturn bool  // check postconditions and frame at every return separately
 	Prune bool // ask the solvers at every branch of the function whether it is infeasible; infeasible branches are not executed (a discharged dead-branch obligation records each)
+	AliasBytes bool // (*bytes.Buffer).Bytes returns a slice that aliases the buffer's content (writes through it are seen by the buffer) instead of a copy
 	SplitDispatch bool // one VC per dynamic type at closed-world interface calls (instead of merging the alternatives)
 	Splits   []Split
 	File     string
@@ -390,7 +391,7 @@ func (cs *ContractSet) parseFile(path, pkg string) error {
 	}
 	var items []item
 	keywords := map[string]bool{"func": true, "lemma": true, "requires": true, "ensures": true, "modifies": true,
-		"loop": true, "let": true, "panics": true, "replay": true, "import": true, "inline": true, "trusted": true, "perreturn": true, "splitdispatch": true, "prune": true,
+		"loop": true, "let": true, "panics": true, "replay": true, "import": true, "inline": true, "trusted": true, "perreturn": true, "splitdispatch": true, "prune": true, "aliasbytes": true,
 		"split": true, "stable": true, "mayalias": true, "assume": true, "define": true, "fileguard": true, "hint": true, "qfonly": true}
 	for i, ln := range strings.Split(string(data), "\n") {
 		t := strings.TrimSpace(ln)
@@ -698,6 +699,8 @@ func (cs *ContractSet) parseFile(path, pkg string) error {
 				cur.SplitDispatch = true
 			case "prune":
 				cur.Prune = true
+			case "aliasbytes":
+				cur.AliasBytes = true
 			case "stable":
 				// stable E: calls whose effect is unknown (no modifies clause) are assumed not to change the
 				// location E (an assumption, listed in the evidence)
